@@ -184,6 +184,7 @@ type ftr struct {
 	allowMut  bool
 	now       bool                          // reads the wall clock: extra parameter now : Z
 	closures  map[types.Object]*ast.FuncLit // local result-less closures, inlined at their call statements
+	ptrAlias  map[types.Object]bool         // locals defined as &<addressable path>: reads are fine, writes through them are refused
 }
 
 func (t *ftr) bad(n ast.Node, format string, a ...any) {
@@ -1652,6 +1653,9 @@ func (t *ftr) assignTo(lhs ast.Expr, val string, rest func() string) string {
 		if _, ok := lhs.(*ast.IndexExpr); ok {
 			what = "element"
 		}
+		if t.ptrAlias[t.objOf(base)] {
+			t.bad(lhs, "assignment through %s, a pointer taken with & to an element or field of another variable: the translation reads pointers as values and could not show the write in the variable pointed into", base.Name)
+		}
 		t.refuseCallerVisible(lhs, base, what)
 		obj := t.objOf(base)
 		bk, ok := kindOfType(derefStruct(obj.Type()))
@@ -1902,6 +1906,20 @@ func (t *ftr) block(list []ast.Stmt, k func() string) string {
 	case *ast.TypeSwitchStmt:
 		return t.typeSwitch(s, restK)
 	case *ast.AssignStmt:
+		if len(s.Lhs) == len(s.Rhs) {
+			for i, r := range s.Rhs {
+				if u, ok := r.(*ast.UnaryExpr); ok && u.Op == token.AND {
+					if _, lit := u.X.(*ast.CompositeLit); !lit {
+						if id, ok := s.Lhs[i].(*ast.Ident); ok && id.Name != "_" {
+							if t.ptrAlias == nil {
+								t.ptrAlias = map[types.Object]bool{}
+							}
+							t.ptrAlias[t.objOf(id)] = true
+						}
+					}
+				}
+			}
+		}
 		if s.Tok == token.DEFINE && len(s.Lhs) == 1 && len(s.Rhs) == 1 {
 			if fl, ok := s.Rhs[0].(*ast.FuncLit); ok {
 				// name := func(params) { … }: a local closure without results that is only ever called as a
